@@ -145,7 +145,7 @@ def gen(rng, tier):
         main += [["spawn", S_aid], ["join", S_aid, 900], ["join", 1, 900]]
     main.append(["terminate", 10.0])
     return {"gateways": specs, "actors": actors, "knobs": knobs, "strategy": L.gen_strategy(rng),
-            "preempt": L.gen_preempt(rng, 3000), "faults": faults, "transport": transport, "backend": backend,
+            "preempt": L.gen_preempt(rng, 3000), "preempt_at": L.gen_preempt_at(rng, ["setcallback", "_local_close", "_local_receive", "_no_longer_opened", "_finished_receiving", "_thread_receiver", "make_receive_queue"]), "faults": faults, "transport": transport, "backend": backend,
             "gwi": gwi, "mode": "single", "ending": ending, "subject": T, "recv_side": recv_side, "dir": d,
             "R": R_aid, "S": S_aid, "want_end": want_end, "pre": pre, "pos": pos, "n": n}
 
@@ -179,11 +179,16 @@ def gen_multi(rng, tier):
         main.append(["waitclose", label, 300])
     main.append(["terminate", 10.0])
     return {"gateways": specs, "actors": actors, "knobs": knobs, "strategy": L.gen_strategy(rng),
-            "preempt": L.gen_preempt(rng, 3000), "faults": [], "transport": "popen", "backend": backend, "gwi": 0,
+            "preempt": L.gen_preempt(rng, 3000), "preempt_at": L.gen_preempt_at(rng, ["setcallback", "_local_close", "_local_receive", "_no_longer_opened", "_finished_receiving", "_thread_receiver", "make_receive_queue"]), "faults": [], "transport": "popen", "backend": backend, "gwi": 0,
             "mode": "multi", "labels": labels, "want_end": want_end}
 
 
 def shrink_cases(case):
+    if case.get("preempt_at"):
+        for i in range(len(case["preempt_at"])):
+            c = dict(case)
+            c["preempt_at"] = case["preempt_at"][:i] + case["preempt_at"][i + 1:]
+            yield c
     if case.get("preempt"):
         for i in range(len(case["preempt"])):
             c = dict(case)
